@@ -13,6 +13,7 @@ if STAGE and STAGE not in sys.path:
 
 REPLAY = bool(os.environ.get("VERIF_REPLAY"))
 
+
 OPS = ["==", "=", "!=", "<", "<=", ">", ">=", "in", "not in"]
 
 
